@@ -95,7 +95,7 @@ PROPS = {
                   "exercised only by the bounded family parse. The code emitter (U-COMPILE / U-EMITWF: no overflow / bounds / panic, push_literal only on literals, build never on an empty builder) and the construction glue "
                   "(U-NEW: Regex::new_options composes parse -> wrap -> analyze -> compile / wrap, lemma_info_ok_cinfo, lemma_info_ok_gt) are decided by proof."),
         assumptions=[T_VSTD, T_ARITH, T_EXTRACT, "T-parse-below: parse_escape / parse_class / the reference parsers / parse_id return positions in bounds on boundaries, well-shaped trees, error positions inside the pattern, the group counter behind the position; T-parser-shape: < 2^61 groups", "T-position / T-startswith / T-fromstr / T-stringfrom shims in U-PARSEFN",
-                     "termination of the recursive code emitter is not proved (exec_allows_no_decreases_clause)"],
+                     "termination of the recursive code emitter is proved in U-EMITWF (decreases *info, rank; through the closures too); U-COMPILE verifies the same functions under its shape contract with exec_allows_no_decreases_clause"],
         bounded_families=['analyze', 'parse'],
     ),
     'C05': dict(
